@@ -51,6 +51,15 @@ impl LspSession {
         self.c.barrier(&uri)
     }
 
+    /// didClose (no analysis is triggered by it)
+    pub fn close(&mut self, name: &str) {
+        if self.opened.remove(name) {
+            let uri = self.tw.uri(name);
+            self.c.notify("textDocument/didClose", serde_json::json!({"textDocument": {"uri": uri}}));
+            self.c.sent_notifications -= 1;
+        }
+    }
+
     /// like `touch` but without waiting
     pub fn touch_async(&mut self, name: &str, text: &str) {
         let uri = self.tw.uri(name);
